@@ -518,6 +518,23 @@ let run_partrace id rest =
      | _ -> id ^ " bad-case")
   | _ -> id ^ " bad-case"
 
+(* ---- API ---- *)
+let run_api id rest =
+  let v r = (match r with Ok _ -> "ok" | Err _ -> "err" | Panic _ -> "panic") in
+  let n s = n_of_u64_string s in
+  match split_on ' ' rest with
+  | ["SI"; rate; ch; bps] -> Printf.sprintf "%s %s" id (v (Api.streaminfo_new (n rate) (n ch) (n bps)))
+  | ["FB"; ch; size] -> Printf.sprintf "%s %s" id (v (Api.framebuf_with_size (n ch) (n size)))
+  | ["FI"; ch; cap; cnt] ->
+    let r = Api.api_fill_interleaved (n ch) (n cap) (n cnt) in
+    Printf.sprintf "%s %s filled=%d" id (v r) (match r with Ok _ -> int_of_string cnt / int_of_string ch | _ -> 0)
+  | ["FL"; ch; cap; bps; len; nb] -> Printf.sprintf "%s %s" id (v (Api.api_fill_le_bytes (n ch) (n cap) (n bps) (n len) (n nb)))
+  | ["FR"; fnum; bad] -> Printf.sprintf "%s %s" id (v (Api.api_frame (n fnum) (bad = "0")))
+  | ["ST"; mt; rate; ch; bps; bs; cnt; bad] ->
+    let inrange = (int_of_string bad < 0) || (int_of_string cnt = 0) in
+    Printf.sprintf "%s %s" id (v (Api.api_stream (mt = "1") (n rate) (n ch) (n bps) (n bs) inrange))
+  | _ -> id ^ " bad-case"
+
 let run_line (line : string) : string =
   match split_on ' ' line with
   | stream :: id :: _ ->
@@ -536,6 +553,7 @@ let run_line (line : string) : string =
        | "CFG" -> run_cfg id rest
        | "PARSE" -> run_parse id rest
        | "PARTRACE" -> run_partrace id rest
+       | "API" -> run_api id rest
        | "RICE" -> run_rice id rest
        | _ -> id ^ " unknown-stream")
      with Stack_overflow -> id ^ " model-stack-overflow")
